@@ -11,6 +11,8 @@ import Driver.GroupBy
 import Driver.GroupByFault
 import Driver.Cleanup
 import Driver.Heap
+import Driver.ExitStackReentrant
+import Driver.ScopeExit
 import Driver.Tools
 open Lean
 
@@ -22,6 +24,8 @@ def dispatch (j : Json) : Except String Json := do
   | "groupbyfault" => Drv.GroupByFault.run j
   | "cleanup" => Drv.Cleanup.run j
   | "heap" => Drv.Heap.run j
+  | "exitstackre" => Drv.ExitStackRe.run j
+  | "scopeexit" => Drv.ScopeExit.run j
   | "tool" => Drv.Tools.run j
   | "contextmanager" => Drv.ContextManager.run j
   | "adapters" => Drv.Adapters.run j
